@@ -16,8 +16,9 @@
 (*                        previous run + period without being demanded     *)
 (*   poll-starved         channel idle at the end of a line although a     *)
 (*                        poll is due (or demanded)                        *)
-(*   no-turns             an association served twice in a row while       *)
-(*                        another one had a request waiting all along      *)
+(*   no-turns             an association served again while another one    *)
+(*                        has had the same request waiting since the       *)
+(*                        first one's previous turn                        *)
 (*   keepalive-early      link status request before the configured        *)
 (*                        silence (or without keep-alive configured)       *)
 (*   two-outstanding      a request started while another is outstanding   *)
@@ -36,7 +37,7 @@ MonInit == [cfg |-> [assocs |-> <<>>], sc |-> "", viol |-> <<>>,
             runPoll |-> [a |-> 0, pid |-> -1],
             nout |-> 0, link |-> [on |-> FALSE, t |-> 0, a |-> 0],
             act |-> <<>>,           \* <<[a, t]>> last link activity
-            served |-> 0, waiting |-> {}, sawIin |-> FALSE]
+            served |-> 0, waiting |-> {}, since |-> <<>>, sawIin |-> FALSE]
 V(m, reason, l, ctx) == [m EXCEPT !.viol = Append(@, Viol("C19", reason, l, m.sc, ctx))]
 
 Quiet(cfg) == \A i \in 1..Len(cfg.assocs) : ~cfg.assocs[i].dis /\ ~cfg.assocs[i].integ /\ ~cfg.assocs[i].en
@@ -68,13 +69,16 @@ CbItem(m0, e, c, l) ==
                 m2 == IF ~okHead THEN V(m1, "fifo", l, "user task started that is not the oldest accepted request of its association: " \o c.s) ELSE m1
                 victim == IF okHead THEN qa[1].id
                           ELSE LET same == SelectSeq(qa, LAMBDA r : r.kind = KindOfName(c.s)) IN IF same = <<>> THEN -1 ELSE same[1].id
-                \* turns: served again while another association kept waiting with the same oldest request
-                m3 == IF m.served = a /\ \E w \in m.waiting : w.a # a /\ QOf(m2, w.a) # <<>> /\ QOf(m2, w.a)[1].id = w.id
-                        THEN V(m2, "no-turns", l, "association served twice in a row while another one was waiting") ELSE m2
+                \* turns: an association that was waiting (same oldest request) when `a` was served last must have been
+                \* served before `a` is served again
+                prevW == LET xs == SelectSeq(m.since, LAMBDA r : r.a = a) IN IF xs = <<>> THEN {} ELSE xs[1].w
+                m3 == IF \E w \in prevW : w.a # a /\ QOf(m2, w.a) # <<>> /\ QOf(m2, w.a)[1].id = w.id
+                        THEN V(m2, "no-turns", l, "association served again while another one has been waiting since its previous turn") ELSE m2
                 q1 == DropId(m3.Q, victim)
                 addrs == {q1[i].a : i \in 1..Len(q1)}
-            IN [m3 EXCEPT !.Q = q1, !.served = a,
-                          !.waiting = {[a |-> b, id |-> SelectSeq(q1, LAMBDA r : r.a = b)[1].id] : b \in addrs}]
+                wnow == {[a |-> b, id |-> SelectSeq(q1, LAMBDA r : r.a = b)[1].id] : b \in addrs}
+            IN [m3 EXCEPT !.Q = q1, !.served = a, !.waiting = wnow,
+                          !.since = Append(SelectSeq(@, LAMBDA r : r.a # a), [a |-> a, w |-> wnow])]
         ELSE IF c.s = "PeriodicPoll" THEN
             LET xs == SelectSeq(e.tx, LAMBDA x : x.fc = 1 /\ x.dst = a /\ x.t = c.t)
                 pid == IF xs = <<>> THEN -1 ELSE xs[1].pid
